@@ -145,7 +145,7 @@ def ops_for(ivs, L):
     xs = []
     for l, r in ivs:
         xs.extend([l, (l + r) / 2, math.nextafter(r, -math.inf)])
-    xs.extend([-1.0, L, math.nextafter(0.0, -1.0), L + 1])
+    xs.extend([-1.0, L, math.nextafter(0.0, -1.0), L + 1, math.nan, math.inf, -math.inf])
     for x in xs:
         ops.append(("seek", x))
     return ops
@@ -247,7 +247,7 @@ def explore(m, opt, acc, tskit, ts, rts, site_pos, max_states=MAX_STATES):
                     if raised is None:
                         acc.fail("nav:no-error", f"{op} from index {idx} should raise", hcase)
                         continue
-                    if not isinstance(raised, (ValueError, IndexError)):
+                    if not isinstance(raised, (ValueError, IndexError, tskit.LibraryError)):
                         acc.fail("nav:wrong-error", f"{op} raised {raised!r}", hcase)
                     key1 = full_key(tree, N, nsamples, sl)
                     if key1 != key0:
